@@ -63,6 +63,7 @@ var (
 	oracleSample = flag.Int("oracle-sample", 40, "run the failing-input oracle on every k-th agreeing OK case (0 = never)")
 	replay       = flag.String("replay", "", "replay one request line from this file and print both replies")
 	maxMismatch  = flag.Int("max-mismatch", 5, "stop after this many mismatches")
+	childDisasm  = flag.String("childdisasm", "", "run disasm.ExtractSyscalls on <arch>:<path> and print the rendered result (child of the read-fault injection)")
 )
 
 type runner struct {
@@ -99,6 +100,10 @@ func (r *runner) count(req string, nontrivial bool) {
 
 func main() {
 	flag.Parse()
+	if *childDisasm != "" {
+		childDisasmMain(*childDisasm)
+		return
+	}
 	start := time.Now()
 	sum := &Summary{Stream: *stream, Profile: *profile, Seed: *seed, Distribution: map[string]int{}, Samples: []string{}, Mismatches: []Mismatch{}}
 	r := &runner{sum: sum, seen: map[[32]byte]bool{}}
@@ -437,6 +442,19 @@ func (r *runner) onePolicy(id string, p *vd.Policy, forceOracle bool) bool {
 			r.sum.OracleRuns++
 			if m.Oracle == "BAD-REQUEST" && goInsts != nil {
 				m.Oracle = vd.SearchVM(r.model, p, goInsts)
+			}
+		}
+		// C05 is about the program the compiler hands out: if it is not a valid seccomp filter, the policy is a
+		// failing input whatever the model would have compiled.
+		if os.Getenv("VERIF_PID") == "C05" && ok && plen <= 4096 && !strings.HasPrefix(m.Oracle, "CEX ") {
+			if raw, err := r.model.Ask("R " + strings.TrimPrefix(goReply, "OK ")); err == nil {
+				verdict := raw
+				if strings.HasPrefix(raw, "RAW ") {
+					verdict, _ = r.model.Ask("K " + strings.TrimPrefix(raw, "RAW "))
+				}
+				if verdict == "REJECT" || verdict == "UNFIT" {
+					m.FailingInput = fmt.Sprintf("Policy.Assemble returns a program of %d instructions that the kernel's filter checker refuses (%s: a load outside the 64-byte record, a jump out of bounds, a missing final return or a field that does not fit its width)", plen, verdict)
+				}
 			}
 		}
 		// C07 is about the verdict itself: the model's verdict is the specification's
